@@ -54,7 +54,7 @@ Section P.
     ceval ce (EAssert (TFun k) (EVar x)) = Some (CF F k f).
   Proof. intros H1 H2. unfold Sem.ceval. rewrite H1, H2, gokind_beq_refl. reflexivity. Qed.
 
-  Ltac lets_assert := repeat (rewrite ceval_assert by reflexivity; simpl).
+  Ltac lets_assert := repeat (erewrite ceval_assert; [simpl | reflexivity | reflexivity]).
 
   (* the end of every closure: result of the operator, returned and implicitly converted *)
   Lemma finish_typed (r : res value) t (s : state F) :
@@ -92,7 +92,7 @@ Section P.
     destruct (fy p s1) as [[b s2]| | |] eqn:Ey; try reflexivity.
     apply Hx in Ex. apply Hy in Ey.
     rewrite (binop_val_spec k) by (try apply wf_has_ty; auto; destruct op; try discriminate; reflexivity).
-    rewrite finish_typed by (intros v Hr; eapply @go_binop_typed; exact Hr).
-    destruct (go_binop k op a b); reflexivity.
+    destruct (go_binop k op a b) as [v| | |] eqn:E; simpl; try reflexivity.
+    rewrite coerce_typed by (eapply @go_binop_typed; exact E). reflexivity.
   Qed.
 End P.
